@@ -50,3 +50,13 @@ func ValidateRedirect(rawURL string, statusCode int) error {
 		return fmt.Errorf("invalid redirect status code %d: must be 301, 302, 307, or 308", statusCode)
 	}
 }
+
+// ValidateStatusCode checks that a status code given to text(), html() or
+// blob() is one the HTTP layer can send: the same 100-599 range the parser
+// enforces for `> value :: N`. net/http panics on codes outside 100-999.
+func ValidateStatusCode(fn string, statusCode int) error {
+	if statusCode < 100 || statusCode > 599 {
+		return fmt.Errorf("%s() status code must be between 100 and 599, got %d", fn, statusCode)
+	}
+	return nil
+}
